@@ -139,7 +139,7 @@ T* Cabinet<T>::free(const Token &token)
 template <typename T>
 void Cabinet<T>::clear()
 {
-    last_id_ = 0;
+    //! keep last_id_: tokens issued before clear() must stay invalid
     cells_.clear();
     first_free_ = std::numeric_limits<Pos>::max();
     count_ = 0;
